@@ -27,6 +27,10 @@ class C11(Prop):
                 {'prog': ['block', 'timeout', False, 8, ['block', 'ignore', False, 16, ['await', 30], 'cm'], 'cm'], 'ext': None},
                 {'prog': ['block', 'timeout', False, 16, ['block', 'timeout', False, 8, ['await', 30], 'coro'], 'cm'], 'ext': None},
                 {'prog': ['seq', ['block', 'ignore', True, -2, ['await', 6], 'cm'], ['await', 4]], 'ext': None}] + [
+            # the same absolute deadline T on the outermost and on an inner block with a later deadline between them: the inner
+            # block owns T (TaskTimeout), the middle block must turn that unhandled timeout into UncaughtTimeoutError
+            {'prog': ['block', k1, True, 16, ['block', 'timeout', False, 40, ['block', 'timeout', True, 16, ['await', 60], f3], f2], f1], 'ext': None}
+            for k1 in ('timeout', 'ignore') for f1, f2, f3 in (('cm', 'cm', 'cm'), ('cm', 'coro', 'cm'), ('coro', 'cm', 'coro'))] + [
             # a block that finishes before its deadline is unaffected - also when what ends it looks like a timeout
             {'prog': ['block', k, False, 16, ['seq', ['await', 2], ['raise', e]], f], 'ext': None}
             for k in ('timeout', 'ignore') for f in ('cm', 'coro') for e in ('TaskTimeout', 'TimeoutCancellationError', 'UncaughtTimeoutError')] + [
@@ -59,7 +63,15 @@ class C11(Prop):
         if case.get('ext') is None and obs['out'] == 'ok' and obs['tail'] != 'tail-ok':
             return 'a cancellation was delivered after the blocks had exited (follow-on code was cancelled)'
         swallows = tc.catches_cancel(case['prog'])
-        for exc, expired, t0, dl, t1, kind in obs['log']:
+        for exc, expired, t0, dl, t1, kind, leaf in obs['log']:
+            if (exc == 'CancelledError' and not expired and abs(t1 - max(dl, t0)) < 1e-9 and case.get('ext') is None
+                    and not tc.raises_foreign(case['prog'], ('CancelledError',))):
+                return ('a block still running at its deadline was left by a bare CancelledError at that very instant instead of '
+                        'reporting its timeout (TaskTimeout / quiet end with expired set)')
+            if (kind == 'ignore' and exc == 'normal' and not expired and leaf and dl > t0 and abs(t1 - dl) < 1e-9
+                    and case.get('ext') is None):
+                return ('an ignore block whose body was still running at the deadline ended quietly but its expired attribute is '
+                        'False (indistinguishable from a body that finished in time)')
             if t1 > max(dl, t0) + 1e-9 and not swallows and case.get('ext') is None:
                 return (f'a block was still running after its deadline (entered {t0}, deadline {dl}, left {t1}): '
                         'it was not interrupted at its deadline')
@@ -77,10 +89,10 @@ class C11(Prop):
                 return 'a block reported expiry although it saw TimeoutCancellationError'
         # UncaughtTimeoutError is reserved for an inner timeout nobody handled: it can only leave a block at the very
         # instant at which a block inside it let a TaskTimeout (or that error) out
-        for i, (exc, expired, t0, dl, t1, kind) in enumerate(obs['log']):
+        for i, (exc, expired, t0, dl, t1, kind, leaf) in enumerate(obs['log']):
             if exc == 'UncaughtTimeoutError' and not tc.raises_foreign(case['prog'], ('UncaughtTimeoutError',)) and not any(
                     e2 in ('TaskTimeout', 'UncaughtTimeoutError') and abs(t1b - t1) < 1e-9
-                    for e2, _, _, _, t1b, _ in obs['log'][:i]):
+                    for e2, _, _, _, t1b, _, _ in obs['log'][:i]):
                 return ('UncaughtTimeoutError left a block although no block inside it let a timeout out at that instant '
                         '(an inner timeout that was handled earlier was taken for an unhandled one)')
         return None
